@@ -388,6 +388,30 @@ func buildPool(r *rng.R) ([]HistOp, []*filegen.File, []string) {
 			}
 			op.Src = filegen.Join(tt, 1, nil)
 			op.Note = "illformed_duplicated_statements"
+		case 8:
+			// ill-formed at EMISSION: user labels named like the sub-labels / text labels the
+			// emitter generates for the same script ("duplicate script label"), in every script
+			// of the file - so that several top-level statements fail and the error that is
+			// reported must still be the same every time (the first in source order)
+			var tt []string
+			for _, it := range f.Items {
+				toks := it.Toks
+				if it.Kind == "script" {
+					for bi, t := range toks {
+						if t == "{" {
+							lbl := fmt.Sprintf("%s_%d", it.Name, r.Range(1, 3))
+							if r.P(0.2) {
+								lbl = it.Name + "_Text_0"
+							}
+							toks = append(append(append([]string{}, toks[:bi+1]...), lbl, ":"), toks[bi+1:]...)
+							break
+						}
+					}
+				}
+				tt = append(tt, toks...)
+			}
+			op.Src = filegen.Join(tt, 1, nil)
+			op.Note = "illformed_generated_label_clash"
 		case 5:
 			// ill-formed: seeded token loss / duplication / swap / replacement
 			tt := append([]string{}, f.Tokens(nil)...)
@@ -439,6 +463,8 @@ func HistWorker(pm *Params) (*Stats, []*Failure) {
 	defer func() { transp.close(); transp = nil }()
 	for i := pm.From; i < pm.Count; i += pm.Stride {
 		seed := rng.RunSeed(pm.VerifSeed, "C17", i)
+		beginRun(pm, i)
+		comp.SchedSeed = rng.Sub(seed, "sched")
 		digest := &Digest{}
 		r := rng.New(rng.Sub(seed, "gen"))
 		pool, files, srcs := buildPool(r)
